@@ -259,7 +259,7 @@ def gen_inputs(r, g, count, maxlen):
         x = r.random()
         s = sm.sentence(maxlen) if x < 0.75 else None
         if s is None:
-            s = [r.choice(tn) for _ in range(r.randint(0, min(maxlen, 7)))]
+            s = [r.choice(tn) for _ in range(r.randint(0, min(maxlen, 7)))] if tn else []
         elif x < 0.4: pass
         elif x < 0.5 and s: s = s[:r.randint(0, len(s))]
         elif x < 0.75: s = mutate(r, s, tn)
@@ -306,6 +306,9 @@ def cfg_sweep(r, focus):
     if focus == 'C06':
         return [dict(la=la, one=1, cost=0, rec=0) for la in r.sample([0, 1, 2], 2)] + \
                [dict(la=r.choice([0, 1, 2]), one=1, cost=0, rec=1, match=m) for m in r.sample([1, 2, 3, 4, 5], 2)]
+    if focus == 'C13':
+        return [dict(la=r.choice([0, 1, 2]), one=r.choice([0, 1]), cost=r.choice([0, 1]), rec=r.choice([0, 1]), free=r.choice(['user', 'user', 'null']),
+                     alloc=r.choice(['user', 'user', 'user', 'null']))]
     if focus in ('C07', 'C08'):
         return [dict(la=r.choice([0, 1, 2]), one=r.choice([0, 1]), cost=r.choice([0, 0, 0, 1]), rec=1, match=m)
                 for m in r.sample([1, 2, 3, 3, 4, 5], 3)]
@@ -339,7 +342,15 @@ def gen_parse_cases(seed, count, focus='C01', maxlen=7, inputs_per=3):
                         op('set 0 %s %d' % (k, cfg[k]))
                         cur[k] = max(0, min(2, cfg[k])) if k == 'la' else cfg[k]
                 op(('parse 0 %s %s 15 %s' % (cfg.get('alloc', 'user'), cfg.get('free', 'user'), codes)).strip())
-        op('free 0')
+        if focus == 'C13':
+            nparse = len([l for l in c if l.startswith('op ') and l.split()[2] == 'parse'])
+            slots = list(range(nparse)); r.shuffle(slots)
+            cut = r.randint(0, nparse)
+            for sl in slots[:cut]: op('freetree 0 %d 1' % sl)
+            op('free 0')
+            for sl in slots[cut:]: op('freetree 0 %d 1' % sl)
+        else:
+            op('free 0')
         c.append('end')
         cases.append(c)
     return cases
@@ -469,6 +480,177 @@ def gen_history_cases(seed, count, maxops=40):
         for (h, slot) in pending[cut:]: op('freetree %d %d 1' % (h, slot))
         lines.append('end')
         cases.append(lines)
+    return cases
+
+
+WS = [' ', '  ', '\n', '\t', ' \n ', '/* c */', ' /* x\ny **/ ', '\n\n', '']
+
+
+def gen_descr_ast(r):
+    """an AST in the description syntax + the twin callback grammar it denotes"""
+    nid = r.randint(0, 3); nch = r.randint(0, 3)
+    if nid + nch == 0: nch = 1
+    idterms = []
+    used_codes = set()
+    for i in range(nid):
+        name = r.choice(['NUM', 'ID', 'tok', 'T_%d' % i, 'x%d' % i]) + ('' if i == 0 else str(i))
+        if r.random() < 0.5:
+            code = r.choice([1, 7, 200, 256, 257, 300, 1000, 70000])
+            while code in used_codes: code += 1
+            used_codes.add(code)
+        else: code = None
+        idterms.append((name, code))
+    chars = r.sample(list('abcxyz+*-()'), nch)
+    chterms = ["'%s'" % c for c in chars]
+    tn = [n for n, _ in idterms] + chterms
+    use_err = r.random() < 0.2
+    nts = ['S', 'A', 'B', 'Cc'][:r.randint(1, 4)]
+    names = iter('pqrstuvw' * 8)
+    rules = []      # (lhs, [alts]) alt = (rhs, transkind, anode, cost(None=default), tr)
+    for nt in nts:
+        alts = []
+        for _ in range(r.randint(1, 3)):
+            n = r.choice([0, 1, 1, 2, 2, 3])
+            rhs = []
+            for _ in range(n):
+                x = r.random()
+                if x < 0.4: rhs.append(r.choice(nts))
+                elif use_err and x < 0.5: rhs.append('error')
+                else: rhs.append(r.choice(tn))
+            k = r.random()
+            if k < 0.45:
+                idx = list(range(n)); r.shuffle(idx); idx = idx[:r.randint(0, n)]
+                tr = list(idx)
+                if r.random() < 0.3: tr.insert(r.randint(0, len(tr)), NIL)
+                cost = r.choice([None, None, 0, 2, 5])
+                paren = True if tr else r.random() < 0.5
+                alts.append((rhs, 'anode', next(names) + nt.lower(), cost, tr, paren))
+            elif k < 0.65 and n > 0: alts.append((rhs, 'num', None, None, [r.randrange(n)], False))
+            elif k < 0.75: alts.append((rhs, 'dash', None, None, [NIL], False))
+            elif k < 0.85: alts.append((rhs, 'hash', None, None, [], False))
+            else: alts.append((rhs, 'none', None, None, [], False))
+        rules.append((nt, alts))
+    # sections: TERM sections anywhere, redeclarations (consistent)
+    sections = []
+    decls = list(idterms)
+    r.shuffle(decls)
+    cut = r.randint(0, len(decls))
+    first, second = decls[:cut], decls[cut:]
+    if r.random() < 0.3 and idterms: second = second + [r.choice(idterms)]     # harmless redeclaration
+    order = [('terms', first)] + [('rule', x) for x in rules]
+    if second or r.random() < 0.2: order.insert(r.randint(0, len(order)), ('terms', second))
+    if not first and r.random() < 0.5: order = order[1:] if len(order) > 1 else order
+    return order, idterms, chterms
+
+
+def render_descr(r, order):
+    def w(): return r.choice(WS) if r.random() < 0.5 else ' '
+    out = []
+    for kind, item in order:
+        if kind == 'terms':
+            out.append(w() + 'TERM' + ' ')
+            for name, code in item:
+                out.append(w() + name + ' ')
+                if code is not None: out.append(w() + '=' + w() + str(code) + ' ')
+            if r.random() < 0.6: out.append(w() + ';')
+        else:
+            lhs, alts = item
+            out.append(w() + lhs + w() + ':')
+            for ai, (rhs, kind2, anode, cost, tr, paren) in enumerate(alts):
+                if ai: out.append(w() + '|')
+                for sy in rhs: out.append(w() + sy + ' ')
+                if kind2 == 'anode':
+                    out.append(w() + '#' + w() + anode + ' ')
+                    if cost is not None: out.append(w() + str(cost) + ' ')
+                    if paren:
+                        out.append(w() + '(')
+                        for e in tr: out.append(w() + ('-' if e == NIL else str(e)) + ' ')
+                        out.append(w() + ')')
+                elif kind2 == 'num': out.append(w() + '#' + w() + str(tr[0]) + ' ')
+                elif kind2 == 'dash': out.append(w() + '#' + w() + '-')
+                elif kind2 == 'hash': out.append(w() + '#')
+            if r.random() < 0.6: out.append(w() + ';')
+    out.append(w())
+    return ''.join(out)
+
+
+def descr_twin(order):
+    """the callback grammar the manual says the description denotes"""
+    seen = []; codes = {}
+    for kind, item in order:
+        if kind == 'terms':
+            for name, code in item:
+                if name not in seen: seen.append(name)
+                if code is not None: codes[name] = code
+        else:
+            for (rhs, *_rest) in item[1]:
+                for sy in rhs:
+                    if sy.startswith("'") and sy not in seen:
+                        seen.append(sy); codes[sy] = ord(sy[1])
+    used = set(codes.values()); nxt = 256; terms = []
+    for name in seen:
+        if name in codes: terms.append((name, codes[name]))
+        else:
+            while nxt in used: nxt += 1
+            terms.append((name, nxt)); nxt += 1
+    rules = []
+    for kind, item in order:
+        if kind != 'rule': continue
+        lhs, alts = item
+        for (rhs, kind2, anode, cost, tr, paren) in alts:
+            rules.append((lhs, anode, (1 if cost is None else cost) if anode else 0, list(rhs), list(tr)))
+    return terms, rules
+
+
+def mutate_text(r, text):
+    b = bytearray(text.encode('latin1'))
+    for _ in range(r.randint(1, 3)):
+        k = r.random()
+        pos = r.randint(0, len(b))
+        if k < 0.3 and b: del b[min(pos, len(b) - 1)]
+        elif k < 0.6: b.insert(pos, r.choice(b"'#|;:=()-/*aT0 \n\x80\xff9E"))
+        elif b: b[min(pos, len(b) - 1)] = r.choice(b"'#|;:=()-/*aT0 \n\x80\xff9E")
+    return bytes(x for x in b if x != 0)
+
+
+def gen_descr_cases(seed, count):
+    r = random.Random(seed)
+    cases = []
+    for i in range(count):
+        order, idterms, chterms = gen_descr_ast(r)
+        text = render_descr(r, order)
+        strict = r.randint(0, 1)
+        terms, rules = descr_twin(order)
+        twin = Grammar(terms, rules, bool(strict))
+        c = ['case C11-%d-%d descr' % (seed, i)] + twin.text(0)
+        mode = r.random()
+        if mode < 0.6:
+            data = text.encode('latin1')
+        elif mode < 0.9:
+            data = mutate_text(r, text)
+        else:
+            data = bytes(r.choice(b"TERM ;:|#'ab()-=/*\n 019\x80") for _ in range(r.randint(0, 40)))
+        c.append('text 0 %s' % data.hex())
+        n = 0
+        def op(s):
+            nonlocal n
+            n += 1; c.append('op %d %s' % (n, s))
+        op('create 0'); op('descr 0 0 %d' % strict); op('err 0')
+        op('create 1'); op('def 1 0')
+        if mode < 0.6 and py_check(terms, rules, bool(strict)) == 0:
+            ins = gen_inputs(r, twin, 2, 6)
+            for h in (0, 1):
+                op('set %d rec 0' % h)
+                op('set %d one %d' % (h, 0))
+            for toks in ins:
+                codes = ' '.join(str(twin.code(t)) for t in toks)
+                for h in (0, 1):
+                    op(('parse %d user user 15 %s' % (h, codes)).strip())
+        else:
+            op('parse 0 user user 1')
+        op('free 0'); op('free 1')
+        c.append('end')
+        cases.append(c)
     return cases
 
 
